@@ -1534,4 +1534,359 @@ theorem scanAll_rel {nx : MSt → Array Nat → Out Res} {R : Array Nat → Arra
       cases h
       exact ⟨hR, fun x hx => by cases hx⟩
 
+/-! ### the `hits` counter and the progress of `range.start`
+
+Hypothesis-free facts about every search that RETURNS (`… = .ok r`; a panic of the checked `u32`
+range arithmetic is a non-`ok` result): arbitrary interpreter, arbitrary prefix bytes, arbitrary
+image and section table.  `range.end` is untouched, `range.start` never decreases and never passes
+`max range.start range.end`, the counter `hits` never decreases and grows by at most the number of
+positions `range.start` advanced, a reported position lies in `[range.start before, range.start
+after)` and cost at least one interpreter call. -/
+
+theorem padd32_eq_ok {site : String} {a b c : Nat} (h : padd32 site a b = .ok c) :
+    c = a + b ∧ a + b < 4294967296 := by
+  unfold padd32 at h
+  split at h
+  · cases h; exact ⟨rfl, by assumption⟩
+  · cases h
+
+/-- what one returning search does to the `Matches` state `m` -/
+structure Advance (m : MSt) (r : Res) : Prop where
+  stop_eq : r.m.stop = m.stop
+  start_le : m.start ≤ r.m.start
+  start_bound : r.m.start ≤ max m.start m.stop
+  hits_ge : m.hits ≤ r.m.hits
+  hits_le : r.m.hits + m.start ≤ m.hits + r.m.start
+  found : r.found = true → m.start ≤ r.pos ∧ r.pos < r.m.start ∧ m.hits + 1 ≤ r.m.hits
+
+/-- the table entries used by the quick search, WITHOUT the assumption that the prefix consists of
+bytes: entries for out-of-range "bytes" are simply never written -/
+theorem jumpsUpTo_bounds' (qs : List Nat) : ∀ n, n + 1 ≤ qs.length →
+    (jumpsUpTo qs n).size = 256 ∧
+    ∀ b, b < 256 → ∃ j, (jumpsUpTo qs n)[b]? = some j ∧ 1 ≤ j ∧ j ≤ qs.length := by
+  intro n
+  induction n with
+  | zero =>
+    intro h
+    refine ⟨by simp [jumpsUpTo], fun b hb => ⟨qs.length, by simp [jumpsUpTo, hb], by omega, Nat.le_refl _⟩⟩
+  | succ n ih =>
+    intro h
+    obtain ⟨hsz, h1⟩ := ih (by omega)
+    rw [jumpsUpTo_succ]
+    refine ⟨by rw [Array.size_setIfInBounds, hsz], fun b hb => ?_⟩
+    rw [Array.getElem?_setIfInBounds]
+    by_cases he : qs.getD n 0 = b
+    · rw [if_pos he, if_pos (by rw [hsz, he]; exact hb)]
+      exact ⟨_, rfl, by omega, by omega⟩
+    · rw [if_neg he]; exact h1 b hb
+
+/-- `1 ≤ jumps[b] ≤ qslen` for every byte `b`, any non-empty prefix list -/
+theorem mkJumps_bounds' (qs : List Nat) (hlen : 1 ≤ qs.length) (b : Nat) (hb : b < 256) :
+    1 ≤ (mkJumps qs).getD b 0 ∧ (mkJumps qs).getD b 0 ≤ qs.length := by
+  obtain ⟨_, h1⟩ := jumpsUpTo_bounds' qs (qs.length - 1) (by omega)
+  obtain ⟨j, hj, h⟩ := h1 b hb
+  rw [mkJumps_eq, Array.getD_eq_getD_getElem?, hj]
+  exact h
+
+theorem strat0Loop_hits {ex : Interp} (stop : Nat) :
+    ∀ k (m : MSt) save r, strat0Loop ex stop k m save = .ok r →
+      r.m.stop = m.stop ∧ m.start ≤ r.m.start ∧ r.m.start ≤ max m.start stop ∧ m.hits ≤ r.m.hits ∧
+      r.m.hits + m.start ≤ m.hits + r.m.start ∧
+      (r.found = true → m.start ≤ r.pos ∧ r.pos < r.m.start ∧ m.hits + 1 ≤ r.m.hits) := by
+  intro k
+  induction k with
+  | zero =>
+    intro m save r h
+    simp only [strat0Loop] at h
+    split at h
+    · cases h
+    · cases h; exact ⟨rfl, Nat.le_refl _, Nat.le_max_left _ _, Nat.le_refl _, Nat.le_refl _, fun hf => by cases hf⟩
+  | succ k ih =>
+    intro m save r h
+    simp only [strat0Loop] at h
+    by_cases hc : m.start < stop
+    · rw [if_pos hc] at h
+      obtain ⟨st1, hst1, h⟩ := bind_eq_ok h
+      obtain ⟨hst1, _⟩ := padd32_eq_ok hst1
+      subst hst1
+      obtain ⟨p, _, h⟩ := bind_eq_ok h
+      obtain ⟨b, s'⟩ := p
+      cases b with
+      | true =>
+        rw [if_pos rfl] at h; cases h
+        refine ⟨rfl, ?_, ?_, ?_, ?_, fun _ => ⟨?_, ?_, ?_⟩⟩ <;> simp only <;> omega
+      | false =>
+        rw [if_neg (by simp)] at h
+        obtain ⟨h1, h2, h3, h4, h5, h6⟩ := ih _ _ _ h
+        simp only at h1 h2 h3 h4 h5 h6
+        refine ⟨h1, by omega, by omega, by omega, by omega, fun hf => ?_⟩
+        obtain ⟨a1, a2, a3⟩ := h6 hf
+        exact ⟨by omega, a2, by omega⟩
+    · rw [if_neg hc] at h; cases h
+      exact ⟨rfl, Nat.le_refl _, Nat.le_max_left _ _, Nat.le_refl _, Nat.le_refl _, fun hf => by cases hf⟩
+
+theorem strat1Loop_hits {ex : Interp} (bytes : Bytes) (off len byte : Nat) (m : MSt) :
+    ∀ k i hits save r, i + k = len → strat1Loop ex bytes off len byte m k i hits save = .ok r →
+      r.m.stop = m.stop ∧ m.start + i ≤ r.m.start ∧ r.m.start ≤ m.start + len ∧ hits ≤ r.m.hits ∧
+      r.m.hits + (m.start + i) ≤ hits + r.m.start ∧
+      (r.found = true → m.start + i ≤ r.pos ∧ r.pos < r.m.start ∧ hits + 1 ≤ r.m.hits) := by
+  intro k
+  induction k with
+  | zero =>
+    intro i hits save r hik h
+    simp only [strat1Loop] at h
+    obtain ⟨st1, hst1, h⟩ := bind_eq_ok h
+    obtain ⟨hst1, _⟩ := padd32_eq_ok hst1
+    subst hst1
+    cases h
+    refine ⟨rfl, ?_, ?_, ?_, ?_, fun hf => by cases hf⟩ <;> simp only <;> omega
+  | succ k ih =>
+    intro i hits save r hik h
+    simp only [strat1Loop] at h
+    by_cases hb : byteAt bytes (off + i) = byte
+    · rw [if_pos hb] at h
+      obtain ⟨cursor, hcur, h⟩ := bind_eq_ok h
+      obtain ⟨hcur, _⟩ := padd32_eq_ok hcur
+      subst hcur
+      obtain ⟨p, _, h⟩ := bind_eq_ok h
+      obtain ⟨b, s'⟩ := p
+      cases b with
+      | true =>
+        rw [if_pos rfl] at h
+        obtain ⟨st1, hst1, h⟩ := bind_eq_ok h
+        obtain ⟨hst1, _⟩ := padd32_eq_ok hst1
+        subst hst1
+        cases h
+        refine ⟨rfl, ?_, ?_, ?_, ?_, fun _ => ⟨?_, ?_, ?_⟩⟩ <;> simp only <;> omega
+      | false =>
+        rw [if_neg (by simp)] at h
+        obtain ⟨h1, h2, h3, h4, h5, h6⟩ := ih _ _ _ _ (by omega) h
+        refine ⟨h1, by omega, h3, by omega, by omega, fun hf => ?_⟩
+        obtain ⟨a1, a2, a3⟩ := h6 hf
+        exact ⟨by omega, a2, by omega⟩
+    · rw [if_neg hb] at h
+      obtain ⟨h1, h2, h3, h4, h5, h6⟩ := ih _ _ _ _ (by omega) h
+      refine ⟨h1, by omega, h3, h4, by omega, fun hf => ?_⟩
+      obtain ⟨a1, a2, a3⟩ := h6 hf
+      exact ⟨by omega, a2, a3⟩
+
+theorem strat2Loop_hits {ex : Interp} (bytes : Bytes) (qs : List Nat) (J : Array Nat)
+    (hJ : ∀ b, b < 256 → 1 ≤ J.getD b 0 ∧ J.getD b 0 ≤ qs.length) (off len : Nat) (m : MSt) :
+    ∀ fuel i hits save r, i ≤ len → strat2Loop ex bytes qs J off len m fuel i hits save = .ok r →
+      r.m.stop = m.stop ∧ m.start + i ≤ r.m.start ∧ r.m.start ≤ m.start + len ∧ hits ≤ r.m.hits ∧
+      r.m.hits + (m.start + i) ≤ hits + r.m.start ∧
+      (r.found = true → m.start + i ≤ r.pos ∧ r.pos < r.m.start ∧ hits + 1 ≤ r.m.hits) := by
+  intro fuel
+  induction fuel with
+  | zero => intro i hits save r _ h; simp only [strat2Loop] at h; cases h
+  | succ fuel ih =>
+    intro i hits save r hil h
+    simp only [strat2Loop] at h
+    by_cases hin : i + qs.length ≤ len
+    · rw [if_pos hin] at h
+      obtain ⟨hj1, hj2⟩ := hJ _ (byteAt_lt bytes (off + i + qs.length - 1))
+      by_cases hcond : qs.getD (qs.length - 1) 0 = byteAt bytes (off + i + qs.length - 1) ∧ winEq bytes (off + i) qs = true
+      · rw [if_pos hcond] at h
+        obtain ⟨cursor, hcur, h⟩ := bind_eq_ok h
+        obtain ⟨hcur, _⟩ := padd32_eq_ok hcur
+        subst hcur
+        obtain ⟨p, _, h⟩ := bind_eq_ok h
+        obtain ⟨b, s'⟩ := p
+        cases b with
+        | true =>
+          rw [if_pos rfl] at h
+          obtain ⟨st1, hst1, h⟩ := bind_eq_ok h
+          obtain ⟨hst1, _⟩ := padd32_eq_ok hst1
+          subst hst1
+          cases h
+          refine ⟨rfl, ?_, ?_, ?_, ?_, fun _ => ⟨?_, ?_, ?_⟩⟩ <;> simp only <;> omega
+        | false =>
+          rw [if_neg (by simp)] at h
+          obtain ⟨h1, h2, h3, h4, h5, h6⟩ := ih _ _ _ _ (by omega) h
+          refine ⟨h1, by omega, h3, by omega, by omega, fun hf => ?_⟩
+          obtain ⟨a1, a2, a3⟩ := h6 hf
+          exact ⟨by omega, a2, by omega⟩
+      · rw [if_neg hcond] at h
+        obtain ⟨h1, h2, h3, h4, h5, h6⟩ := ih _ _ _ _ (by omega) h
+        refine ⟨h1, by omega, h3, h4, by omega, fun hf => ?_⟩
+        obtain ⟨a1, a2, a3⟩ := h6 hf
+        exact ⟨by omega, a2, a3⟩
+    · rw [if_neg hin] at h
+      obtain ⟨st1, hst1, h⟩ := bind_eq_ok h
+      obtain ⟨hst1, _⟩ := padd32_eq_ok hst1
+      subst hst1
+      cases h
+      refine ⟨rfl, ?_, ?_, ?_, ?_, fun hf => by cases hf⟩ <;> simp only <;> omega
+
+/-- any of the three searches over a window of `len` positions starting at `range.start` -/
+theorem strategy_hits {ex : Interp} (bytes : Bytes) (qs : List Nat) (off len : Nat) (m : MSt)
+    (save : Array Nat) (r : Res) (h : strategy ex bytes qs off len m save = .ok r) :
+    r.m.stop = m.stop ∧ m.start ≤ r.m.start ∧ r.m.start ≤ m.start + len ∧ m.hits ≤ r.m.hits ∧
+    r.m.hits + m.start ≤ m.hits + r.m.start ∧
+    (r.found = true → m.start ≤ r.pos ∧ r.pos < r.m.start ∧ m.hits + 1 ≤ r.m.hits) := by
+  unfold strategy at h
+  by_cases h0 : qs.length = 0
+  · rw [if_pos h0] at h
+    unfold strategy0 at h
+    obtain ⟨stop, hstop, h⟩ := bind_eq_ok h
+    obtain ⟨hstop, _⟩ := padd32_eq_ok hstop
+    subst hstop
+    obtain ⟨h1, h2, h3, h4, h5, h6⟩ := strat0Loop_hits _ _ _ _ _ h
+    exact ⟨h1, h2, by omega, h4, h5, h6⟩
+  · rw [if_neg h0] at h
+    by_cases h4 : qs.length < 4
+    · rw [if_pos h4] at h
+      cases qs with
+      | nil => simp only [strategy1] at h; cases h
+      | cons byte rest =>
+        simp only [strategy1] at h
+        exact strat1Loop_hits _ _ _ _ _ _ _ _ _ _ (by omega) h
+    · rw [if_neg h4] at h
+      unfold strategy2 at h
+      exact strat2Loop_hits _ _ _ (fun b hb => mkJumps_bounds' qs (by omega) b hb) _ _ _ _ _ _ _ _ (Nat.zero_le _) h
+
+theorem nextSection_hits {ex : Interp} (bytes : Bytes) (qs : List Nat) (base off len : Nat)
+    (m : MSt) (save : Array Nat) (r : Res) (h : nextSection ex bytes qs base off len m save = .ok r) :
+    r.m.stop = m.stop ∧ m.start ≤ r.m.start ∧ r.m.start ≤ max (max base m.start) m.stop ∧ m.hits ≤ r.m.hits ∧
+    r.m.hits + m.start ≤ m.hits + r.m.start ∧
+    (r.found = true → m.start ≤ r.pos ∧ r.pos < r.m.start ∧ m.hits + 1 ≤ r.m.hits) := by
+  unfold nextSection at h
+  dsimp only at h
+  split at h
+  · cases h
+  · split at h
+    · cases h
+      refine ⟨rfl, ?_, ?_, Nat.le_refl _, ?_, fun hf => by cases hf⟩ <;> simp only <;> omega
+    · split at h
+      · obtain ⟨h1, h2, h3, h4, h5, h6⟩ := strategy_hits _ _ _ _ _ _ _ h
+        simp only at h1 h2 h3 h4 h5 h6
+        refine ⟨h1, by omega, by omega, h4, by omega, fun hf => ?_⟩
+        obtain ⟨a1, a2, a3⟩ := h6 hf
+        exact ⟨by omega, a2, a3⟩
+      · cases h
+
+theorem nextFile_hits {ex : Interp} (bytes : Bytes) (qs : List Nat) :
+    ∀ (secs : List Pe.Sec) (m : MSt) save r, nextFile ex bytes qs secs m save = .ok r → Advance m r := by
+  intro secs
+  induction secs with
+  | nil =>
+    intro m save r h; simp only [nextFile] at h; cases h
+    exact ⟨rfl, Nat.le_refl _, Nat.le_max_left _ _, Nat.le_refl _, Nat.le_refl _, fun hf => by cases hf⟩
+  | cons s rest ih =>
+    intro m save r h
+    simp only [nextFile] at h
+    by_cases hov : s.va < m.stop ∧ wadd32 s.va s.vs > m.start
+    · rw [if_pos hov] at h
+      by_cases hraw : s.prd ≤ wadd32 s.prd s.rs ∧ wadd32 s.prd s.rs ≤ bytes.size
+      · rw [if_pos hraw] at h
+        obtain ⟨q, hq, h⟩ := bind_eq_ok h
+        obtain ⟨h1, h2, h3, h4, h5, h6⟩ := nextSection_hits _ _ _ _ _ _ _ _ hq
+        cases hf : q.found with
+        | true =>
+          rw [hf, if_pos rfl] at h; cases h
+          exact ⟨h1, h2, by omega, h4, h5, h6⟩
+        | false =>
+          rw [hf, if_neg (by simp)] at h
+          have A := ih _ _ _ h
+          refine ⟨by rw [A.stop_eq, h1], Nat.le_trans h2 A.start_le, ?_, Nat.le_trans h4 A.hits_ge, ?_, fun hf' => ?_⟩
+          · have := A.start_bound; rw [h1] at this; omega
+          · have := A.hits_le; omega
+          · obtain ⟨a1, a2, a3⟩ := A.found hf'
+            exact ⟨by omega, a2, by omega⟩
+      · rw [if_neg hraw] at h; exact ih _ _ _ h
+    · rw [if_neg hov] at h; exact ih _ _ _ h
+
+/-- **one call of `next`, any interpreter, any prefix, any image** -/
+theorem nextWith_hits {ex : Interp} (v : Pe.View) (qs : List Nat) (m : MSt) (save : Array Nat) (r : Res)
+    (h : nextWith ex v qs m save = .ok r) : Advance m r := by
+  unfold nextWith at h
+  cases hk : v.kind with
+  | file => rw [hk] at h; exact nextFile_hits _ _ _ _ _ _ h
+  | view =>
+    rw [hk] at h
+    obtain ⟨h1, h2, h3, h4, h5, h6⟩ := nextSection_hits _ _ _ _ _ _ _ _ h
+    exact ⟨h1, h2, by omega, h4, h5, h6⟩
+
+/-- **a whole scan** with a `next` that satisfies `Advance`: the same for the final state, every
+recorded position lies in `[range.start at the beginning, range.start at the end)`, and every
+recorded match cost at least one interpreter call -/
+theorem scanAll_hits {nx : MSt → Array Nat → Out Res}
+    (hnx : ∀ m save r, nx m save = .ok r → Advance m r) :
+    ∀ n (m : MSt) save a, scanAll nx n m save = .ok a →
+      a.m.stop = m.stop ∧ m.start ≤ a.m.start ∧ a.m.start ≤ max m.start m.stop ∧
+      m.hits + a.hits.length ≤ a.m.hits ∧ a.m.hits + m.start ≤ m.hits + a.m.start ∧
+      ∀ x ∈ a.hits, m.start ≤ x.1 ∧ x.1 < a.m.start := by
+  intro n
+  induction n with
+  | zero =>
+    intro m save a h
+    simp only [scanAll] at h
+    cases h
+    exact ⟨rfl, Nat.le_refl _, Nat.le_max_left _ _, Nat.le_refl _, Nat.le_refl _, fun x hx => by cases hx⟩
+  | succ n ih =>
+    intro m save a h
+    simp only [scanAll] at h
+    obtain ⟨r, hr, h⟩ := bind_eq_ok h
+    have A := hnx _ _ _ hr
+    cases hf : r.found with
+    | true =>
+      rw [hf, if_pos rfl] at h
+      obtain ⟨a', ha', h⟩ := bind_eq_ok h
+      simp only [Out.ok.injEq] at h
+      subst h
+      obtain ⟨h1, h2, h3, h4, h5, h6⟩ := ih _ _ _ ha'
+      obtain ⟨f1, f2, f3⟩ := A.found hf
+      have := A.stop_eq; have := A.start_le; have := A.start_bound; have := A.hits_le
+      refine ⟨by simp only; omega, by simp only; omega, by simp only; omega,
+        by simp only [List.length_cons]; omega, by simp only; omega, fun x hx => ?_⟩
+      rcases List.mem_cons.1 hx with rfl | hx
+      · simp only; omega
+      · have := h6 x hx; simp only; omega
+    | false =>
+      rw [hf, if_neg (by simp)] at h
+      cases h
+      exact ⟨A.stop_eq, A.start_le, A.start_bound, by simpa using A.hits_ge, A.hits_le, fun x hx => by cases hx⟩
+
+
+/-- the states a `Matches` object can be in after finitely many RETURNING calls of `next` (abstract
+`nx`, each call on an arbitrary save array) when it started in state `m` -/
+inductive Reach (nx : MSt → Array Nat → Out Res) (m : MSt) : MSt → Prop
+  | refl : Reach nx m m
+  | step {m' : MSt} {save : Array Nat} {r : Res} : Reach nx m m' → nx m' save = .ok r → Reach nx m r.m
+
+theorem Reach_hits {nx : MSt → Array Nat → Out Res}
+    (hnx : ∀ m save r, nx m save = .ok r → Advance m r) {m m' : MSt} (h : Reach nx m m') :
+    m'.stop = m.stop ∧ m.start ≤ m'.start ∧ m'.start ≤ max m.start m.stop ∧ m.hits ≤ m'.hits ∧
+    m'.hits + m.start ≤ m.hits + m'.start := by
+  induction h with
+  | refl => exact ⟨rfl, Nat.le_refl _, Nat.le_max_left _ _, Nat.le_refl _, Nat.le_refl _⟩
+  | step _ hr ih =>
+    obtain ⟨h1, h2, h3, h4, h5⟩ := ih
+    have A := hnx _ _ _ hr
+    have := A.stop_eq; have := A.start_le; have := A.start_bound; have := A.hits_le; have := A.hits_ge
+    exact ⟨by omega, by omega, by omega, by omega, by omega⟩
+
+/-- the final state of `scanAll` is such a state -/
+theorem scanAll_reach {nx : MSt → Array Nat → Out Res} :
+    ∀ n (m0 m : MSt) save a, Reach nx m0 m → scanAll nx n m save = .ok a → Reach nx m0 a.m := by
+  intro n
+  induction n with
+  | zero => intro m0 m save a hm h; simp only [scanAll] at h; cases h; exact hm
+  | succ n ih =>
+    intro m0 m save a hm h
+    simp only [scanAll] at h
+    obtain ⟨r, hr, h⟩ := bind_eq_ok h
+    cases hf : r.found with
+    | true =>
+      rw [hf, if_pos rfl] at h
+      obtain ⟨a', ha', h⟩ := bind_eq_ok h
+      simp only [Out.ok.injEq] at h
+      subst h
+      show Reach nx m0 a'.m
+      exact ih _ _ _ _ (Reach.step hm hr) ha'
+    | false =>
+      rw [hf, if_neg (by simp)] at h
+      cases h
+      exact Reach.step hm hr
+
 end Pelite.Scan
